@@ -1,8 +1,10 @@
 /-
   Driver engine `cachefs`: `case cache-mem <dur-seconds>`; `b.<op>` / `l.<op>` act on the
   base / cache layer directly (direct base edits are part of C10's quantifier).
-  Script times (chtimes) are seconds relative to the moment the case starts; the model clock
-  stays at that origin.
+  Script times are relative to the moment the case starts; the model clock stays at that origin.
+  The model's time unit is the millisecond: `chtimes` arguments and the duration are seconds and
+  are scaled, `chtimesms` arguments are milliseconds (modification times that differ by less than
+  a second).
 -/
 import AferoVerif.Engine.CowFs
 import AferoVerif.Model.Cache
@@ -14,10 +16,18 @@ structure St where
   dur : Int := 0
   modelled : Bool := true
 
+/-- bring the time argument of a (prefix-stripped) chtimes line to milliseconds -/
+def toMs : List String → List String
+  | ["chtimes", p, t] => match parseInt t with
+    | some t => ["chtimes", p, toString (t * 1000)]
+    | none => ["chtimes", p, t]
+  | ["chtimesms", p, t] => ["chtimes", p, t]
+  | l => l
+
 def stepLine (s : St) (line : String) : St × String :=
   match tokens line with
   | ["case", "cache-mem", d] => match parseInt d with
-    | some d => ({ c := {}, dur := d }, "case") | none => (s, "bad-op")
+    | some d => ({ c := {}, dur := d * 1000 }, "case") | none => (s, "bad-op")
   | "case" :: _ => ({ c := {}, modelled := false }, "case")
   | toks =>
     if !s.modelled then (s, "unmodelled") else
@@ -40,11 +50,11 @@ def stepLine (s : St) (line : String) : St × String :=
     | ["snapshot"] => (s, "snap B{" ++ snapshot s.c.s.b ++ "} L{" ++ snapshot s.c.s.l ++ "}")
     | t0 :: rest =>
       if t0.startsWith "b." || t0.startsWith "l." then
-        match parseOp ((t0.drop 2).toString :: rest) with
+        match parseOp (toMs ((t0.drop 2).toString :: rest)) with
         | some op => let (c', r) := CowFs.direct s.c (t0.startsWith "b.") op; ({ s with c := c' }, renderRes r)
         | none => (s, "unmodelled")
       else
-        match parseOp toks with
+        match parseOp (toMs toks) with
         | some op => let (c', r) := Cache.step s.dur s.c op; ({ s with c := c' }, renderRes r)
         | none => (s, "unmodelled")
     | [] => (s, "bad-op")
